@@ -253,9 +253,12 @@ type c12Run struct {
 	st  string
 }
 
-func (sc *c12Scenario) run(failAt int) *c12Run {
+func (sc *c12Scenario) run(failAt int) *c12Run { return sc.runWith(failAt, false) }
+
+func (sc *c12Scenario) runWith(failAt int, endAlsoFails bool) *c12Run {
 	rec := dp.NewRec()
 	rec.FailAt = failAt
+	rec.EndAlsoFails = endAlsoFails
 	target := dp.NewStore(sc.s, sc.t.Clone())
 	b := node.NewBrowser(sc.s.Mod, rec.Wrap("tgt", "", target.Node()))
 	out := &c12Run{rec: rec}
@@ -325,6 +328,15 @@ func (p c12) Run(c *core.Ctx, idx int) {
 		c.Count("fault_" + ev.CB + "_" + ev.Side)
 		c.Shape("%s/%s/%s/%s/%s", sc.op, sc.kind, ev.CB, ev.Side, posClass(k, L))
 		p.checkTrace(c, sc, desc, run, ev.CB+"/"+ev.Side)
+		// the same fault followed by failing EndEdit callbacks: every node still hears the end, every error is reported
+		// (not for the target's Choose: its error is swallowed, which is the known finding error-lost/Choose/tgt)
+		if k%3 == idx%3 && !(ev.CB == "Choose" && ev.Side == "tgt") {
+			run2 := sc.runWith(k, true)
+			if run2.rec.FailedSeq >= 0 && len(run2.rec.EndErrors) > 0 {
+				c.Count("double_faults_injected")
+				p.checkTrace(c, sc, desc, run2, ev.CB+"/"+ev.Side+"/ends-fail-too")
+			}
+		}
 	}
 }
 
@@ -448,6 +460,13 @@ func (p c12) checkTrace(c *core.Ctx, sc *c12Scenario, desc string, run *c12Run, 
 		c.Violate("error-lost/"+tag, "callback %d (%s on %s %s) failed but the API call returned nil\n%s", rec.FailedSeq, inj.CB, inj.Side, inj.Node, wit())
 	} else if !errors.Is(run.err, rec.Sentinel) {
 		c.Violate("error-not-wrapped/"+tag, "callback %d (%s on %s %s) failed with the sentinel; the API returned %q which does not wrap it\n%s", rec.FailedSeq, inj.CB, inj.Side, inj.Node, run.err, wit())
+	}
+	// (3b) so does every error an EndEdit returned afterwards
+	for i, ee := range rec.EndErrors {
+		if run.err != nil && !errors.Is(run.err, ee) {
+			c.Violate("end-error-lost/"+tag, "after the failing callback %d, EndEdit failed as well (%v, %d of %d such); the API returned %q which does not wrap it\n%s", rec.FailedSeq, ee, i+1, len(rec.EndErrors), run.err, wit())
+			break
+		}
 	}
 	// (4) no write after the failing call
 	for _, e := range rec.Events[rec.FailedSeq+1:] {
